@@ -19,7 +19,8 @@
                                          pattern and all levels (degenerate, zero, opposite) at every regular point;
           [free_gf_diag_allM_C], [free_vertex_zero_diag_allM_C], [regular_points_exist_allM]
                                          the same over Coquelicot's C for ALL real levels, ALL beta > 0, ALL Matsubara
-                                         numbers, without side conditions.
+                                         numbers, without side conditions;
+          [weights_is_gibbs_allM]        the Gibbs table of these statements is what EDSpec.weights computes, all M.
     PROVED, part B: ARBITRARY h (any square matrix over a field), in matrix form (mathcomp):
       [resolvent_of_rotated_diagonal]    h = V diag(d) V^-1  =>  (z - h)^-1 = V diag(1/(z - d)) V^-1;
       [lehmann_is_resolvent_any_h]       for operator matrices C_i, CX_i with the canonical anticommutation relations
@@ -232,6 +233,13 @@ Theorem free_vertex_zero_diag_allM_C : forall (es : list R) (beta : R) (i j k l 
      (GmnM CSetting (zfC beta) eps xs i l) (GmnM CSetting (zfC beta) eps xs j k) n1 n2 n3 = RtoC 0.
 Proof. exact WickAllMC.free_vertex_zero_diag_allM_C. Qed.
 Print Assumptions free_vertex_zero_diag_allM_C.
+
+(** The Gibbs table used above is what the specification's weight function PV.EDSpec.weights computes from the
+    energy table (real ordering of energies, real exponential), for any number of real levels and every beta. *)
+Theorem weights_is_gibbs_allM : forall (beta : R) (es : list R),
+  weights C CNumR (RtoC beta) (energies CSetting (levelsC es)) = gibbs CSetting (boltzC beta es).
+Proof. exact WickAllMC.weights_is_gibbs_allM. Qed.
+Print Assumptions weights_is_gibbs_allM.
 
 (** Non-vacuity by computation (vm_compute on exact rationals, independent of the theorems; PV.WickAllMQ):
     4 modes with levels 1/2, -1/3, 1/2, 0 (16 Fock states): G for all 16 index pairs and chi for ALL 256 index
